@@ -222,7 +222,11 @@ func writeMessageFieldUnmarshaller(name string, typ FieldType, w *iohelp.ErrorWr
 		writeLineWithTabs(w, "for i := uint32(0); i < "+lnName+"; i++ {", depth, name)
 		ln := getLineWithTabs(settings.typeUnmarshallers[typ.Map.Key], depth+1, "&"+depthName("k", depth))
 		w.SafeWrite([]byte(strings.Replace(ln, "=", ":=", 1)))
-		writeMessageFieldUnmarshaller("&("+deref+"["+depthName("k", depth)+"])", typ.Map.Value, w, settings, depth+1)
+		// decoded into a local and stored once (see writeFieldReadByter)
+		vName := depthName("mv", depth)
+		writeLineWithTabs(w, "var "+vName+" "+typ.Map.Value.goString(settings), depth+1)
+		writeMessageFieldUnmarshaller("&"+vName, typ.Map.Value, w, settings, depth+1)
+		writeLineWithTabs(w, deref+"["+depthName("k", depth)+"] = "+vName, depth+1)
 		writeLineWithTabs(w, "}", depth)
 	} else {
 		simpleTyp := typ.Simple
